@@ -136,6 +136,68 @@ class Ctx:
         self._cur = self._last = None
 
 
+def in_fork(fn):
+    """Run fn() in a freshly forked copy of this process (so nothing it leaves behind - caches, mutated module state -
+    survives, and nothing run earlier in a *sibling* fork is visible); returns fn's pickled result."""
+    import pickle
+
+    r, w = os.pipe()
+    sys.stdout.flush()
+    sys.stderr.flush()
+    pid = os.fork()
+    if pid == 0:
+        code = 0
+        try:
+            os.close(r)
+            signal.alarm(0)
+            try:
+                out = (True, fn())
+            except BaseException:  # noqa: BLE001
+                out = (False, traceback.format_exc()[-1500:])
+            with os.fdopen(w, "wb") as fp:
+                pickle.dump(out, fp)
+        except BaseException:  # noqa: BLE001
+            code = 1
+        finally:
+            os._exit(code)
+    os.close(w)
+    with os.fdopen(r, "rb") as fp:
+        data = fp.read()
+    os.waitpid(pid, 0)
+    if not data:
+        raise RuntimeError("forked child died without a result")
+    ok, val = pickle.loads(data)
+    if not ok:
+        raise RuntimeError("forked child raised:\n" + val)
+    return val
+
+
+def run_sequence_in_fork(run_case, cases, ctx, tag=None):
+    """History check: run the given cases one after the other in ONE freshly forked process, each judged by the check's
+    ordinary oracle; clause evaluations / violations are merged into ctx (violations carry the whole sequence as case)."""
+
+    def body():
+        sub = Ctx(ctx.pid)
+        for c in cases:
+            sub._cur = {"sequence": cases, "at": c}
+            run_case(c, sub)
+        return sub.clauses, sub.counters, sub.skipped, sub.viol, sub.nviol, sub.vclauses, sub.transitions
+
+    clauses, counters, skipped, viol, nviol, vclauses, transitions = in_fork(body)
+    ctx.clauses.update(clauses)
+    ctx.counters.update(counters)
+    ctx.skipped.update(skipped)
+    ctx.nviol += nviol
+    ctx.vclauses.update(vclauses)
+    ctx.transitions += transitions
+    for v in viol:
+        v["case"] = {"sequence": cases}
+        if tag:
+            v["tags"] = dict(v.get("tags") or {}, **tag)
+        if len(ctx.viol) < MAX_VIOL_PER_BLOCK:
+            ctx.viol.append(v)
+
+
 _MOD = None
 
 
